@@ -247,6 +247,23 @@ Theorem C05_stream_gate_labels :
 Proof. exact stream_gate_labels. Qed.
 Print Assumptions C05_stream_gate_labels.
 
+(* THE CIRCUIT CACHE IS A MEMO.  Program.Stream keeps the circuits it compiles
+   for the steps in a cache keyed by Instr.StringTyped().  For every circuit
+   generator (any function of the step's shape: opcode, operand bit sizes —
+   slice lengths included —, result size, index offset) and every list of (cache
+   key, shape) pairs that passes the executable check memo_ok (two steps with one
+   key have one shape): the circuits the cached streamer uses are, step by
+   step, those the generator yields without a cache.  memo_ok is evaluated by
+   run_c05 on the keys the Go code computed for every generated program (fourth
+   flag of the observable, must be true) — the former assumption "the cache is
+   a pure memo" is this hypothesis with its check. *)
+Theorem C05_cache_is_memo :
+  forall (C : Type) (gen : shape -> C) (l : list (N * shape)),
+    memo_ok shape shape_eqb l [] = true ->
+    cached_run shape C gen l [] = map (fun q => gen (snd q)) l.
+Proof. exact cache_is_memo. Qed.
+Print Assumptions C05_cache_is_memo.
+
 (* STATE INVENTORY (finite obligation on the model regenerated from the source, checked by
    computation).  The struct fields and package-level variables of the Go packages this
    property is anchored in — circuit, compiler, compiler/ssa — as emitted from /repo's current
